@@ -8,14 +8,16 @@ Open Scope N_scope.
 Definition err_code (e : build_error) : N :=
   match e with
   | EMissingSection => 1 | EUnknownSection => 2 | EUnknownKey => 3 | EKeyless => 4 | EMissingParam => 5
-  | EBadValue => 6 | EBadContext => 7 | EBadItemType => 8 | EOutOfFuel => 99
+  | EBadValue => 6 | EBadContext => 7 | EBadItemType => 8 | EBadResolver => 9 | EOutOfFuel => 99
   end.
 
 Record build_case := {
   bc_sections : list gsection;                 (* what Parse returned for the text *)
   bc_oracle : list (N * str * bool);           (* FuzzyDecode answers: (type id, value, ok) *)
   bc_impl : N;                                 (* 0 accepted, k rejected with error kind k, 100 crash, 50 other error *)
-  bc_global_strings : list (str * str)         (* accepted: effective values of string keys of 'global' *)
+  bc_global_strings : list (str * str);        (* accepted: effective values of string keys of 'global' *)
+  bc_http_method : str;                        (* accepted: Global.TcpCheckHttpMethod after the patches *)
+  bc_bootstrap : str                           (* accepted: Global.BootstrapResolver *)
 }.
 
 Definition oracle_of (tab : list (N * str * bool)) (ty : N) (v : str) : bool :=
@@ -46,7 +48,7 @@ Definition spec_must_reject (secs : list gsection) : bool :=
 
 (* codes: 1 impl<>model, 2 impl<>spec, 9 crash, 3 model<>spec *)
 Definition check_build (c : build_case) : list N :=
-  let m := build schema_structs (oracle_of (bc_oracle c)) schema_tops (bc_sections c) in
+  let m := build schema_structs (oracle_of (bc_oracle c)) schema_tops schema_global_sid (bc_sections c) in
   let mcode := match m with BOk => 0 | BErr e => err_code e end in
   let must := spec_must_reject (bc_sections c) in
   let e_im := if mcode =? bc_impl c then [] else [1] in
@@ -62,10 +64,18 @@ Definition check_build (c : build_case) : list N :=
                                                | None => false
                                                end) (bc_global_strings c))
               then [2] else [] in
+  let e_patch :=
+      if bc_impl c =? 0 then
+        (if str_eqb (effective_http_method schema_structs (oracle_of (bc_oracle c)) schema_global_sid (bc_sections c)) (bc_http_method c)
+         then [] else [1])
+        ++ (if str_eqb (trim_space (bc_bootstrap c)) (bootstrap_value schema_structs schema_global_sid (bc_sections c)) then [] else [1])
+        ++ (match bootstrap_value schema_structs schema_global_sid (bc_sections c) with
+            | [] => [] | v => if oracle_of (bc_oracle c) 7 v then [] else [2] end)
+      else [] in
   let e_ms := if must && (mcode =? 0) then [3] else [] in
-  e_im ++ e_is ++ e_ms.
+  e_im ++ e_is ++ e_patch ++ e_ms.
 
 Definition build_signature (c : build_case) : N * N * N :=
-  let m := build schema_structs (oracle_of (bc_oracle c)) schema_tops (bc_sections c) in
+  let m := build schema_structs (oracle_of (bc_oracle c)) schema_tops schema_global_sid (bc_sections c) in
   (match m with BOk => 0 | BErr e => err_code e end, N.of_nat (List.length (bc_sections c)),
    N.of_nat (fold_right (fun s a => (List.length (snd s) + a)%nat) O (bc_sections c))).
